@@ -8,3 +8,77 @@ package wal
 //@ ensures (result == nil) <==> (nextOffset >= 0 && (old(t.lastAppendedOffset.v) == -1 || nextOffset == old(t.lastAppendedOffset.v) + 1))
 //@ ensures result != nil && nextOffset >= 0 ==> errIs(result, ErrInvalidNextOffset)
 //@ modifies nothing
+
+// ---------------------------------------------------------------------------
+// readWriteSegment: representation invariant and per-operation contracts.
+// hs is the codec's header size (4 or 12); n = lastOffset-baseOffset+1 entries.
+// The index holds one big-endian uint32 file offset per entry; entries are
+// spaced by at least 5 bytes (header + non-empty payload): entry i is followed by
+// n-i records below currentFileOffset, which never exceeds the mapped segment.
+
+//@ define rwInv(ms *readWriteSegment) bool = ms.c != nil && ms.c.codec != nil && len(ms.txnMappedFile) == ms.segmentSize && ms.segmentSize <= 2147483647 && ms.currentFileOffset <= ms.segmentSize && 0 <= ms.c.baseOffset && ms.c.baseOffset < 4611686018427387904 && ms.c.baseOffset - 1 <= ms.lastOffset && len(ms.writingIdx) == 4*(ms.lastOffset - ms.c.baseOffset + 1) && 5*(ms.lastOffset - ms.c.baseOffset + 1) <= ms.currentFileOffset && (forall j int :: 0 <= j && j <= ms.lastOffset - ms.c.baseOffset ==> 5*j <= be32(ms.writingIdx, 4*j) && be32(ms.writingIdx, 4*j) + 5*(ms.lastOffset - ms.c.baseOffset + 1 - j) <= ms.currentFileOffset) && (forall i int, j int :: 0 <= i && i < j && j <= ms.lastOffset - ms.c.baseOffset ==> be32(ms.writingIdx, 4*i) + 5*(j-i) <= be32(ms.writingIdx, 4*j))
+
+//@ func fileOffset
+//@ property C09 C10
+//@ pure
+//@ requires firstOffset <= offset && (offset-firstOffset)*4 + 4 <= len(idx) && len(idx) <= 4294967295
+//@ ensures result == be32(idx, (offset-firstOffset)*4)
+
+//@ func readWriteSegment.HasSpace
+//@ property C09
+//@ pure
+//@ requires ms.c != nil && ms.c.codec != nil && 0 <= l && l < 2147483000 && ms.currentFileOffset <= ms.segmentSize && ms.segmentSize <= 2147483647
+//@ ensures result <==> ms.currentFileOffset + ms.c.codec.GetHeaderSize() + l <= ms.segmentSize
+
+//@ func readWriteSegment.BaseOffset
+//@ property C09
+//@ pure
+//@ requires ms.c != nil
+//@ ensures result == ms.c.baseOffset
+
+//@ func readWriteSegment.LastOffset
+//@ property C09
+//@ pure
+//@ ensures result == ms.lastOffset
+
+//@ func readWriteSegment.LastCrc
+//@ property C09
+//@ pure
+//@ ensures result == ms.lastCrc
+
+//@ func readWriteSegment.Append
+//@ property C09
+//@ requires rwInv(ms) && len(data) < 2147483000 && separate(ms.txnMappedFile, data) && separate(ms.txnMappedFile, ms.writingIdx)
+//@ ensures result == nil ==> rwInv(ms) && ms.lastOffset == offset && offset == old(ms.lastOffset) + 1 && ms.currentFileOffset == old(ms.currentFileOffset) + ms.c.codec.GetHeaderSize() + len(data)
+//@ ensures result == nil ==> be32(ms.writingIdx, 4*(offset - ms.c.baseOffset)) == old(ms.currentFileOffset)
+//@ ensures result != nil ==> ms.lastOffset == old(ms.lastOffset) && ms.currentFileOffset == old(ms.currentFileOffset) && len(ms.writingIdx) == old(len(ms.writingIdx))
+//@ ensures result != nil ==> errIs(result, codec.ErrEmptyPayload) || errIs(result, ErrSegmentFull) || errIs(result, ErrInvalidNextOffset)
+//@ ensures errIs(result, ErrSegmentFull) ==> len(data) > 0
+//@ modifies ms.lastCrc, ms.currentFileOffset, ms.lastOffset, ms.writingIdx, elems(ms.txnMappedFile), elems(ms.writingIdx)
+
+//@ func readWriteSegment.Read(ms, offset) (payload, err)
+//@ property C09
+//@ requires rwInv(ms)
+//@ ensures err == nil ==> ms.c.baseOffset <= offset && offset <= ms.lastOffset
+//@ ensures err == nil ==> len(payload) == be32(ms.txnMappedFile, be32(ms.writingIdx, 4*(offset-ms.c.baseOffset)))
+//@ ensures err == nil ==> forall k int :: 0 <= k && k < len(payload) ==> payload[k] == ms.txnMappedFile[be32(ms.writingIdx, 4*(offset-ms.c.baseOffset)) + ms.c.codec.GetHeaderSize() + k]
+//@ ensures (offset < ms.c.baseOffset || offset > ms.lastOffset) ==> errIs(err, codec.ErrOffsetOutOfBounds)
+//@ modifies nothing
+
+//@ func readWriteSegment.Truncate
+//@ property C09
+//@ requires rwInv(ms) && separate(ms.txnMappedFile, ms.writingIdx)
+//@ loop 0 invariant fileEndOffset <= i
+//@ loop 0 invariant forall k int :: 0 <= k && k < fileEndOffset ==> ms.txnMappedFile[k] == old(ms.txnMappedFile[k])
+//@ loop 0 modifies elems(ms.txnMappedFile)
+//@ loop 0 decreases ms.currentFileOffset - i
+//@ ensures (lastSafeOffset < old(ms.c.baseOffset) || lastSafeOffset > old(ms.lastOffset)) ==> errIs(result, codec.ErrOffsetOutOfBounds) && ms.lastOffset == old(ms.lastOffset) && ms.currentFileOffset == old(ms.currentFileOffset)
+//@ ensures result == nil ==> rwInv(ms) && ms.lastOffset == lastSafeOffset && ms.c.baseOffset <= lastSafeOffset && lastSafeOffset <= old(ms.lastOffset)
+//@ ensures result == nil ==> ms.currentFileOffset == old(be32(ms.writingIdx, 4*(lastSafeOffset-ms.c.baseOffset))) + ms.c.codec.GetHeaderSize() + old(be32(ms.txnMappedFile, be32(ms.writingIdx, 4*(lastSafeOffset-ms.c.baseOffset))))
+//@ ensures result == nil ==> forall j int :: 0 <= j && j <= lastSafeOffset - ms.c.baseOffset ==> be32(ms.writingIdx, 4*j) == old(be32(ms.writingIdx, 4*j))
+//@ ensures result == nil ==> forall k int :: 0 <= k && k < ms.currentFileOffset ==> ms.txnMappedFile[k] == old(ms.txnMappedFile[k])
+//@ modifies ms.currentFileOffset, ms.lastOffset, ms.writingIdx, elems(ms.txnMappedFile)
+
+//@ func readWriteSegment.Flush
+//@ property C09
+//@ modifies nothing
